@@ -215,6 +215,11 @@ def draw_call(ex, rng, lo, hi, small_ints=False, plan=None, exact=False):
         if isinstance(v, (list, tuple)):
             out = [walk(x, d) for x in v]
             return tuple(out) if isinstance(v, tuple) else out
+        if isinstance(v, sympy.Pow) and v.base in plan:      # expression-valued parameter  b ** unknown
+            obj, si, how = _draw_leaf(v.base, plan, rng, lo, hi, small_ints, exact)
+            env[v.base] = si
+            d.append(how + "**unknown")
+            return sympy.sympify(obj) ** v.exp
         obj, si, how = _draw_leaf(v, plan, rng, lo, hi, small_ints, exact)
         env[v] = si
         d.append(how)
@@ -368,9 +373,7 @@ def law_residual(spec, env, y_value):
         lhs = law.lhs.xreplace({spec.yexpr: yv}).xreplace(rep)
         rhs = law.rhs.xreplace({spec.yexpr: yv}).xreplace(rep)
     else:
-        rep2 = dict(rep)
-        rep2[ysym] = yv
-        lhs, rhs = law.lhs.xreplace(rep2), law.rhs.xreplace(rep2)
+        lhs, rhs = law.lhs.xreplace(rep).xreplace({ysym: yv}), law.rhs.xreplace(rep).xreplace({ysym: yv})
     a, b = numeric(lhs, env), numeric(rhs, env)
     scale = max(term_scale(lhs, env), term_scale(rhs, env), abs(complex(a)), abs(complex(b)))
     return a, b, scale
